@@ -11,7 +11,7 @@ var verifContents = []string{"", "a", "ab\ncd\nef", "世界", "abcdef", "a\n\nb\
 // VerifC14TextSize: the container size Text computes never exceeds the maximum, for every
 // maximum (free uint16 width and height) and a list of contents (hard-wrapped text).
 func VerifC14TextSize() {
-	t := &Text{Content: verifContents[zzverif.Choose("content", len(verifContents))], Softwrap: false}
+	t := &Text{Content: verifContents[zzverif.Choose("content", len(verifContents))], Softwrap: zzverif.Param("softwrap") != 0}
 	ctx := vxfw.DrawContext{
 		Max:        vxfw.Size{Width: zzverif.Uint16("maxw"), Height: zzverif.Uint16("maxh")},
 		Characters: vaxis.Characters,
